@@ -68,6 +68,15 @@ M = [
     ('m14c', 'C14', 'concepts/contexts.py',
      "        return (self.objects == other.objects\n                and self.properties == other.properties\n                and self.bools == other.bools)",
      "        return (set(self.objects) == set(other.objects)\n                and self.properties == other.properties\n                and self.bools == other.bools)"),
+    ('m19a', 'C19', 'concepts/contexts.py',
+     "            if not result.issubset(indexes):",
+     "            if result and max(result) >= len(indexes):"),
+    ('m19b', 'C19', 'concepts/contexts.py',
+     "            or {len(b) for b in bools} != {len(properties)}):",
+     "            or len(bools[0]) != len(properties)):"),
+    ('m19c', 'C19', 'concepts/contexts.py',
+     "        if lattice is not None and not lattice:\n            raise ValueError('empty lattice')",
+     "        if lattice is not None and not lattice and not ignore_lattice:\n            raise ValueError('empty lattice')"),
     ('m20a', 'C20', 'concepts/visualize.py',
      "        if concept.properties:\n            dot.edge(name, name,\n                     taillabel=make_property_label(concept.properties),",
      "        if concept.properties and concept.lower_neighbors:\n            dot.edge(name, name,\n                     taillabel=make_property_label(concept.properties),"),
